@@ -6,7 +6,7 @@ from vlib import core, enumgen
 from vlib.sexp import Q
 
 PROP = "C04"
-LEAN_MODULES = ["ShootVerif.Props.C04", "ShootVerif.Props.C04Facts"]
+LEAN_MODULES = ["ShootVerif.Props.C04", "ShootVerif.Props.C04Facts", "ShootVerif.Props.C04Hist"]
 USES_FACTS = True
 DRIVER = "shootmodel_enum"
 enumgen.regen_enum_facts()          # lean/ShootVerif/Gen/EnumFacts.lean follows the current source (Props/C04Facts.lean)
@@ -89,6 +89,7 @@ def make_case(ctx, cid, en, batch=None, mode=None):
     variants = stale_variants(ctx, en, decl) if cl in ("wf", "neg", "big") else []
     rerun = bool(decl) and ctx.rng.random() < 0.3          # shoot runs a second time over the package that holds its own output
     hops = enumgen.history(ctx.rng, en, decl) if decl else []
+    scr = enumgen.scribbles(ctx.rng, en, decl) if cl in ("wf", "neg", "big") else []
     extra = [["win"] + [str(v) for v in win],
              ["stale"] + [[lbl] + [[Q(n), str(v)] for n, v in cur] for lbl, _, cur in variants], enumgen.history_sexp(hops)]
     if rerun:
@@ -103,9 +104,13 @@ def make_case(ctx, cid, en, batch=None, mode=None):
         if not rerun:
             rerun = True
             extra.append(enumgen.generated_sexp(en, decl))
-    case = {"id": cid, "en": en, "decl": decl, "files": files0, "mode": lay["mode"], "spread": lay["spread"], "edit": edit, "verbose": lay["verbose"],
+    case = {"id": cid, "en": en, "decl": decl, "files": files0, "mode": lay["mode"], "spread": lay["spread"], "edit": edit, "verbose": lay["verbose"], "neutral": lay["neutral"],
             "runs": runs, "rerun": rerun,
-            "oracle": {".": enumgen.oracle_c04(en, decl, win, enumgen.str_probes(ctx.rng, T, decl), hops)} if decl else {}, "hist": hops,
+            "oracle": {".": enumgen.oracle_c04(en, decl, win, enumgen.str_probes(ctx.rng, T, decl), hops,
+                                                       enumgen.scribble_go(T, scr, win) if scr else None)} if decl else {}, "hist": hops,
+            "asub": {"id": cid + "a", "en": en, "decl": decl, "variants": [], "kind": "alias", "mode": lay["mode"],
+                     "sexp": enumgen.case_sexp(cid + "a", "c04a", en, [["win"] + [str(v) for v in win], enumgen.scribble_sexp(scr)]),
+                     "cmd": "a caller writes through Values()/Strings()/ValueMap()/StringMap() of the output of shoot enum " + " ".join(lay["sel"])} if scr else None,
             "sexp": enumgen.case_sexp(cid, "c04", en, extra), "cmd": "shoot enum " + " ".join(lay["sel"]),
             "variants": variants, "shape": en.get("shape") if en.get("shape") in VARIANTS else cl}
 
@@ -223,14 +228,18 @@ def run_cases(ctx, cases, name="mod"):
                 if d != want:
                     raise core.InfraError("harness evaluation of the const blocks disagrees with the compiler for %s: %s vs %s" % (
                         c["sexp"][:300], want, d))
-                im.update(obs)
+                if c.get("asub"):
+                    impl[c["asub"]["id"]] = {k[2:]: v for k, v in obs.items() if k.startswith("A/")}
+                im.update({k: v for k, v in obs.items() if not k.startswith("A/")})
                 for lbl, _, _ in c["variants"]:
                     st = out["%sx%s" % (c["id"], lbl)]["compile"]
                     im["stale:" + lbl] = "accepted" if st == "ok" else "rejected"
+                    im["staleErr:" + lbl] = enumgen.guard_class(st)
                     c["detail"]["stale:" + lbl] = enumgen.compile_class(st) + " " + st[:160]
         impl[c["id"]] = im
-    model = core.model_run(ctx, [c["sexp"] for c in cases])
-    return impl, model
+    allc = cases + [c["asub"] for c in cases if c.get("asub") and c["asub"]["id"] in impl]
+    model = core.model_run(ctx, [c["sexp"] for c in allc])
+    return allc, impl, model
 
 
 def sig(c, region, dk, im, m):
@@ -244,7 +253,7 @@ def run(ctx, obl):
     chunk = 700
     for i in range(0, len(cases), chunk):
         part = cases[i:i + chunk]
-        impl, model = run_cases(ctx, part, "mod%d" % (i // chunk))
+        allc, impl, model = run_cases(ctx, part, "mod%d" % (i // chunk))
         for c in part:
             for f in enumgen.features_of(c["en"]):
                 res.hist("features", f)
@@ -252,14 +261,18 @@ def run(ctx, obl):
             res.hist("run-mode", c["mode"] + ("+spread" if c["spread"] and c["mode"].startswith("file") else ""))
             res.hist("rerun", str(c["rerun"]))
             res.hist("verbose-flag", str(c["verbose"]))
+            res.hist("neutral-flags", "+".join(sorted(c["neutral"])) or "none")
+            for k in enumgen.hist_kinds(c.get("hist", [])):
+                res.hist("history-calls", k)
             res.hist("generated-header-file", str(bool(c["en"].get("genheader"))))
             res.hist("edit-history", c["edit"])
             res.hist("requested-feature", c["en"].get("feature", "random"))
             res.hist("stale-variants", str(len(c["variants"])))
             for lbl, _, _ in c["variants"]:
                 res.hist("stale-kind", lbl)
-        core.compare_cases(ctx, res, part, impl, model, sig=sig,
+        core.compare_cases(ctx, res, allc, impl, model, sig=sig,
                            nontrivial=lambda c, m, im: m["region"] != "Out" and len(c["decl"]) >= 2)
+        res.extra["caller-write (alias) sub-cases, advisory"] = res.extra.get("caller-write (alias) sub-cases, advisory", 0) + len(allc) - len(part)
         for v in res.violations:
             cid = v["case"].split(" ")[1]
             for c in part:
@@ -300,7 +313,7 @@ def replay(ctx, payload):
     for fn, src in c["files"].items():
         print("---- %s\n%s" % (fn, src))
     print(c["sexp"])
-    impl, model = run_cases(ctx, [c])
+    _, impl, model = run_cases(ctx, [c])
     m = model["replay"]
     print("cmd   :", c["cmd"], c.get("detail"))
     print("region:", m["region"])
